@@ -1196,10 +1196,10 @@ class Process(StateMachine, persistence.Savable, metaclass=ProcessStateMachineMe
         """
         if not self.paused:
             if self._pausing is not None:
-                # Not going to pause after all
+                # Not going to pause after all.  The cancelled action is left in place: step() skips it, and another
+                # request (a kill) that replaced it meanwhile must not be cancelled along with it
                 self._pausing.cancel()
                 self._pausing = None
-                self._set_interrupt_action(None)
             return True
 
         call_with_super_check(self.on_playing)
@@ -1345,7 +1345,7 @@ class Process(StateMachine, persistence.Savable, metaclass=ProcessStateMachineMe
                 next_state = self.create_state(process_states.ProcessState.EXCEPTED, *sys.exc_info()[1:])
                 self._set_interrupt_action(None)
 
-            if self._interrupt_action:
+            if self._interrupt_action is not None and not self._interrupt_action.cancelled():
                 self._interrupt_action.run(next_state)
             else:
                 # Everything nominal so transition to the next state
